@@ -300,10 +300,82 @@ def gen_injects(rng, graph, presets, targets, nd):
     return presets, threads
 
 
+class Var(list):
+    """per-cycle variants of the presets / of the requested targets: cycle k uses variant min(k, last)"""
+
+
+def variant(x, k):
+    return x[min(k, len(x) - 1)] if isinstance(x, Var) else x
+
+
 def case_line(cid, seed, strat, ex, cycles, graph, presets, inj_threads, targets):
     inj = "|".join(",".join("%d=%s@%d" % x for x in th) for th in inj_threads) or "-"
-    return "%s %d %d %s %d %s %s %s %s" % (cid, seed, strat, ex, cycles, fmt_graph(graph), fmt_vals(presets), inj,
-                                           ",".join("%d" % t for t in targets))
+    ps = "#".join(fmt_vals(v) for v in presets) if isinstance(presets, Var) else fmt_vals(presets)
+    ts = "#".join(",".join("%d" % t for t in v) for v in targets) if isinstance(targets, Var) else ",".join("%d" % t for t in targets)
+    return "%s %d %d %s %d %s %s %s %s" % (cid, seed, strat, ex, cycles, fmt_graph(graph), ps, inj, ts)
+
+
+def redraw_presets(rng, presets):
+    out = []
+    for d, v in presets:
+        if rng.chance(1, 2):
+            v = [0, 1, "E", 2 + rng.below(900), 1, 0][rng.below(6)]
+        out.append((d, v))
+    return out
+
+
+def used_data(graph):
+    used = set()
+    for _, deps, emits in graph:
+        used.update(emits)
+        for (t, c, ev, ess) in deps:
+            used.add(t)
+            if c is not None:
+                used.add(c)
+    return sorted(used)
+
+
+def gen_variants(rng, graph, presets, targets):
+    """run / reset cycles of ONE graph instance with different target sets and different input values: a cycle may leave
+    conditional vertices un-activated while their condition is still published, the next one activates them"""
+    used = used_data(graph)
+    n = 2 + rng.below(2)
+    pv, tv = Var(), Var()
+    for k in range(n):
+        if k == n - 1 and rng.chance(1, 2):
+            pv.append(list(presets))
+            tv.append(list(targets))
+            continue
+        pv.append(redraw_presets(rng, presets))
+        ts = []
+        for _ in range(1 + rng.below(2)):
+            d = rng.choice(used)
+            if d not in ts:
+                ts.append(d)
+        tv.append(ts)
+    return pv, tv, n
+
+
+def gen_reset_case(rng):
+    """directed: a conditional dependency whose owner is not activated in one cycle (its condition is published with the
+    establishing value) and activated in the next with the condition not holding"""
+    ev = rng.chance(1, 2)
+    hold, nohold = (1, 0) if ev else (0, 1)
+    if rng.chance(1, 3):
+        nohold = "E" if ev else nohold
+    extra = rng.chance(1, 2)
+    graph = [("", [], [2]), (rng.choice(["", "m", "e"]), [(2, 0, ev, rng.chance(1, 4))] + ([(1, None, False, False)] if extra else []), [3]),
+             ("", [(0, None, False, False)], [4])]
+    if not extra:
+        graph.append(("", [(1, None, False, False)], [5]))
+    other = [4] if rng.chance(1, 2) else [4, 2 if rng.chance(1, 2) else 4]
+    other = sorted(set(other))
+    pv = Var([[(0, hold), (1, rng.below(50))], [(0, nohold), (1, rng.below(50))]])
+    tv = Var([other, [3] + ([4] if rng.chance(1, 2) else [])])
+    if rng.chance(1, 3):
+        pv.append([(0, hold), (1, 7)])
+        tv.append([3])
+    return graph, pv, tv, len(pv)
 
 
 # the directed case of the known finding run-races-external-release (see META["note"])
@@ -449,8 +521,10 @@ def main(argv):
         if r.get("unit"):
             replay_unit = r
         else:
+            rp = Var([[tuple(p) for p in v] for v in r["presets"]]) if r.get("variants") else [tuple(p) for p in r["presets"]]
+            rt = Var(r["targets"]) if r.get("variants") else r["targets"]
             cases = [("r0", r["seed"], r["strategy"], r["exec"], r["cycles"], [tuple([f, [tuple(d) for d in ds], es]) for f, ds, es in r["graph"]],
-                     [tuple(p) for p in r["presets"]], [[tuple(x) for x in th] for th in r["injects"]], r["targets"])]
+                     rp, [[tuple(x) for x in th] for th in r["injects"]], rt)]
     else:
         ngraph, nsched = (300, 6) if not thorough else (1500, 14)
         for gi in range(ngraph):
@@ -460,21 +534,31 @@ def main(argv):
                 ex = ["I", "P1", "P2", "P3", "P2", "I"][si % 6] if gi % 4 != 3 else ["P2", "P3", "P1", "P2", "P3", "I"][si % 6]
                 strat = [0, 3, 0, 1, 3, 0][si % 6]
                 cycles = 2 if si % 3 == 0 else 1
+                tg = targets
+                if si % 3 == 0 and gi % 2 == 0 and not inj:
+                    pres, tg, cycles = gen_variants(rng, graph, presets, targets)
                 if inj and gi % 15 == 2 and si in (1, 3):
                     ex, cycles = (ex if ex != "I" else "P2") + "x", 1      # run() races the injector's release()
-                cases.append(("g%d.%d" % (gi, si), rng.below(1 << 31), strat, ex, cycles, graph, pres, inj, targets))
+                cases.append(("g%d.%d" % (gi, si), rng.below(1 << 31), strat, ex, cycles, graph, pres, inj, tg))
+        for k in range(40 if not thorough else 300):
+            graph, pv, tv, n = gen_reset_case(rng)
+            cases.append(("r%d" % k, rng.below(1 << 31), [0, 3][k % 2], ["I", "P2", "I", "P1"][k % 4], n, graph, pv, [], tv))
     if not chk.replay:
         cases.append(XDIR)
         # 'y' cases: requested targets (not the last one by preference) are emitted by another thread concurrently with
         # run(); value = the sequential value (whoever wins the acquire publishes the same content), producer-less
         # targets keep their preset value
-        ybase = [c for c in cases if not c[3].endswith("x") and len(c[8]) >= 2 and not c[7]]
+        ybase = [c for c in cases if not c[3].endswith("x") and not isinstance(c[8], Var) and len(c[8]) >= 2 and not c[7]]
         ny = 60 if not thorough else 400
         for c in ybase[:: max(1, len(ybase) // ny)][:ny]:
             cid, seed, strat, ex, cycles, graph, presets, inj, targets = c
             env, _ = ref_eval(graph, dict(presets))
             trivial_emits = set(d for fl, _, em in graph if "t" in fl for d in em)
-            cand = [t for t in targets[:-1] if t in env and t not in trivial_emits] or [t for t in targets if t in env and t not in trivial_emits]
+            produced = set(d for _, _, em in graph for d in em)
+            # only targets that have a producer: a producer-less target that arrives too late makes run() fail by design
+            # ("no producer"), and emitting it after the failed run touches the dead closure (class of the known finding)
+            cand = [t for t in targets[:-1] if t in env and t in produced and t not in trivial_emits] or \
+                   [t for t in targets if t in env and t in produced and t not in trivial_emits]
             if not cand:
                 continue
             hit = [cand[rng.below(len(cand))]]
@@ -533,7 +617,14 @@ def main(argv):
     model_out = {}
     dep_sets = {}
     if model:
-        model_out = chk.run_cases(model, lines + klines + ["B2 B 2", "B3 B 3"] +
+        mlines = []
+        for c in cases:
+            if isinstance(c[6], Var):
+                for k in range(c[4]):
+                    mlines.append(case_line(c[0] + "@%d" % k, c[1], c[2], c[3], 1, c[5], variant(c[6], k), c[7], variant(c[8], k)))
+            else:
+                mlines.append(case_line(*c))
+        model_out = chk.run_cases(model, mlines + klines + ["B2 B 2", "B3 B 3"] +
                                   ["D%s%s D %s %s" % (hc, ho, hc, ho) for hc, ho in (("1", "1"), ("1", "0"), ("0", "0"))],
                                   timeout=900)
         for k in ("D11", "D10", "D00"):
@@ -614,7 +705,7 @@ def main(argv):
             continue
         _, seed, strat, ex, cycles, graph, presets, inj, targets = meta[cid]
         rep = {"seed": seed, "strategy": strat, "exec": ex, "cycles": cycles, "graph": graph, "presets": presets,
-               "injects": inj, "targets": targets, "line": case_line(*meta[cid]), "impl_line": l}
+               "injects": inj, "targets": targets, "variants": isinstance(presets, Var), "line": case_line(*meta[cid]), "impl_line": l}
         if l.startswith("DSCHED-STUCK"):
             kind = "deadlock" if "deadlock" in l.split()[1] else "livelock"
             chk.violate("stuck-" + kind, "the run never terminates (%s): closure not finished / wait() never returns: %s" %
@@ -659,34 +750,40 @@ def main(argv):
                 chk.violate("mon-" + m, WHAT[m] + ": " + parts[1], rep)
         keys = []
         for cyc, s in enumerate(parts[1].split("#")):
-            keys.append(check_cycle(chk, rep, cyc, graph, presets, inj, targets, s, yinj=ex.endswith("y")))
+            keys.append(check_cycle(chk, rep, cyc, graph, variant(presets, cyc), inj, variant(targets, cyc), s, yinj=ex.endswith("y")))
         distinct.add((fmt_graph(graph), tuple(keys)))
         # correspondence with the extracted model (sequential evaluation + demand analysis of AFModel)
-        ml = model_out.get(cid)
+        ml = model_out.get(cid + "@0" if isinstance(presets, Var) else cid)
         if ml and " code=" in ml:
             validated += 1
-            mf = dict(x.split("=", 1) for x in ml.split()[1:])
-            mran = dict((int(a.split(":")[0]), a.split(":")[1]) for a in mf.get("ran", "").split(";") if a)
-            mvals = mf["vals"].split(",")
-            macts = set(int(x) for x in mf.get("acts", "").split(",") if x)
             for cyc, s in enumerate(parts[1].split("#")):
                 code, vals, ran, act, _ = parse_cycle(s)
+                if isinstance(presets, Var):
+                    ml = model_out.get("%s@%d" % (cid, cyc), "")
+                    if " code=" not in ml:
+                        chk.broke("correspondence", "model driver produced no line for %s@%d" % (cid, cyc), ml)
+                        break
+                targets_c = variant(targets, cyc)
+                mf = dict(x.split("=", 1) for x in ml.split()[1:])
+                mran = dict((int(a.split(":")[0]), a.split(":")[1]) for a in mf.get("ran", "").split(";") if a)
+                mvals = mf["vals"].split(",")
+                macts = set(int(x) for x in mf.get("acts", "").split(",") if x)
                 diff = None
                 ycase = ex.endswith("y")     # concurrently injected targets: the model takes them as given from the start; an
                 #                              error (injection too late) and extra runs of their producers are admissible
                 if ycase and code != 0:
                     pass
                 elif ycase:
-                    if any(t < len(vals) and vals[t] != mvals[t] for t in targets):
-                        diff = "target values %s, model %s" % ([vals[t] for t in targets], [mvals[t] for t in targets])
+                    if any(t < len(vals) and vals[t] != mvals[t] for t in targets_c):
+                        diff = "target values %s, model %s" % ([vals[t] for t in targets_c], [mvals[t] for t in targets_c])
                     elif any(v not in ran for v in mran):
                         diff = "processors run %s, model needs %s" % (sorted(ran), sorted(mran))
                     elif any(v in mran and mran[v] != ran[v] for v in ran):
                         diff = "inputs seen %s, model %s" % (sorted(ran.items()), sorted(mran.items()))
                 elif (code == 0) != (mf["code"] == "0"):
                     diff = "closure code %d, model expects %s" % (code, mf["code"])
-                elif code == 0 and any(t < len(vals) and vals[t] != mvals[t] for t in targets):
-                    diff = "target values %s, model %s" % ([vals[t] for t in targets], [mvals[t] for t in targets])
+                elif code == 0 and any(t < len(vals) and vals[t] != mvals[t] for t in targets_c):
+                    diff = "target values %s, model %s" % ([vals[t] for t in targets_c], [mvals[t] for t in targets_c])
                 elif code == 0 and ran != mran:
                     diff = "processors run with inputs %s, model %s" % (sorted(ran.items()), sorted(mran.items()))
                 elif any(v not in macts for v in list(ran) + list(act)):
@@ -705,7 +802,10 @@ def main(argv):
     chk.cov["rule"] = ("graph case = (random DAG in topological order: 1-8 vertices, 0-3 dependencies each, plain / on / "
                        "unless / essential, 1-2 emits, boolean and failing processors, trivial vertices; presets incl. empty "
                        "and missing inputs; 1-3 requested targets; executor inplace or 1-3 workers picking queued run tasks in "
-                       "random order; optional injector threads; 1-2 run/reset cycles; schedule seed; strategy uniform / "
+                       "random order; optional injector threads; 1-3 run/reset cycles of the same graph instance, in a third of "
+                       "the multi-cycle cases with a different target set and different input values per cycle (plus directed "
+                       "cases: a conditional vertex left un-activated in one cycle while its condition is published, activated "
+                       "in the next with the condition not holding); schedule seed; strategy uniform / "
                        "round-robin+pre-emption / PCT).  publication through Committer<T> in place / moved / move-assigned / explicit release / deferred in a spawned "
                        "thread.  'y' case = a graph case with >= 2 targets where one or two requested "
                        "targets (preferably not the last) are emitted by extra threads concurrently with run(), one process "
